@@ -310,34 +310,56 @@ func hGojaRun(ex *Exec, c *frame, fn *ssa.Function, a []Value) Value {
 			}
 			keys := strings.Split(path, "][")
 			tv, _ := get(env, member)
-			target := asMapOrNil(ex, tv)
-			if target == nil {
+			var cur Value = tv
+			if cur == nil || ex.forceIface(cur).T == nil {
 				return throw("TypeError: cannot set property of undefined")
 			}
 			for i, kl := range keys {
-				k, ok := jsStr(kl)
-				if !ok {
-					panic(engineErr("goja model: bad key in %q", st))
-				}
-				if i == len(keys)-1 {
-					ex.mapUpdate(target, k, v, c)
-					break
-				}
-				nv, have := get(target, k)
-				if !have {
-					return throw("TypeError: cannot set property of undefined")
-				}
-				niv := ex.forceIface(nv)
-				if niv.T == nil {
+				last := i == len(keys)-1
+				civ := ex.forceIface(cur)
+				if civ.T == nil {
 					return throw("TypeError: cannot set property of null")
 				}
-				nm, isMap := niv.V.(*Map)
-				if !isMap {
-					// property assignment on a primitive (or array index by name) is silently ignored
-					target = nil
+				if k, isKey := jsStr(kl); isKey {
+					tm, isMap := civ.V.(*Map)
+					if !isMap {
+						break // property assignment on a primitive is silently ignored
+					}
+					if last {
+						ex.mapUpdate(tm, k, v, c)
+						break
+					}
+					nv, have := get(tm, k)
+					if !have {
+						return throw("TypeError: cannot set property of undefined")
+					}
+					cur = nv
+					continue
+				}
+				// numeric index into an array
+				idx := 0
+				for _, ch := range kl {
+					if ch < '0' || ch > '9' {
+						panic(engineErr("goja model: bad index in %q", st))
+					}
+					idx = idx*10 + int(ch-'0')
+				}
+				sl, isSl := civ.V.(Slice)
+				if !isSl {
 					break
 				}
-				target = nm
+				if idx >= sl.Len {
+					if last {
+						break // growing a wrapped Go slice is not modelled (not in the vocabulary)
+					}
+					return throw("TypeError: cannot set property of undefined")
+				}
+				cell := sl.Arr.E[sl.Off+idx]
+				if last {
+					ex.store(cell, v, c)
+					break
+				}
+				cur = cell.V
 			}
 			_ = asMap
 		case st == "globalThis.polluted = 1;" || st == "Object.prototype.polluted = 1;":
